@@ -45,7 +45,9 @@ theorem C02_gradle_total (bytes : List Char) : Gradle.parse bytes ≠ .panic := 
 
 /-- Gemfile.lock: `m[1]`, `m[2]` are in range on every input. -/
 theorem C02_gemfile_total (bytes : List Char) : Gemfile.parse bytes ≠ .panic := by
-  rw [Gemfile.parse_eq]; split <;> simp
+  rw [Gemfile.parse_eq]; split
+  · simp
+  · split <;> simp
 
 /-- dpkg status: `parts[2]` and both slices of `parseSourceNameVersion` are in range on every input. -/
 theorem C02_dpkg_total (bytes : List Char) : Dpkg.parse bytes ≠ .panic := by
